@@ -6,7 +6,7 @@ use log::error;
 use rayon::iter::IntoParallelRefIterator;
 use rayon::prelude::*;
 
-use crate::model::{Content, State};
+use crate::model::{strip_md, Content, State};
 
 pub fn write_file(key: &String, content: &Content, to: &PathBuf) -> std::io::Result<()> {
     let path = to.join(format!("{}.md", key));
@@ -118,5 +118,5 @@ fn read_file(path: &PathBuf, sub: &Vec<String>) -> Option<(String, Content)> {
 
 fn to_file_name(path: &PathBuf) -> String {
     let name = path.file_name().unwrap().to_string_lossy().to_string();
-    name.trim_end_matches(".md").to_string()
+    strip_md(&name).to_string()
 }
